@@ -145,14 +145,20 @@ def pairs():
     def shunts_permuted(net, batch):
         # bus labels that are a permutation of the new shunt indices; voltage ratings taken from the buses
         if batch:
-            pp.create_shunts(net, [1, 0, 2], q_mvar=[1., -2., .5], p_mw=[0., .1, 0.])
+            pp.create_shunts(net, [2, 0, 1], q_mvar=[1., -2., .5], p_mw=[0., .1, 0.])
         else:
-            for b_, q_, p_ in zip([1, 0, 2], [1., -2., .5], [0., .1, 0.]):
+            for b_, q_, p_ in zip([2, 0, 1], [1., -2., .5], [0., .1, 0.]):
                 pp.create_shunt(net, b_, q_mvar=q_, p_mw=p_)
     yield "create_shunt(s) with the rated voltage taken from the buses", "shunt", shunts_permuted
 
-    def simple(single, batch, table, kws, nbus=2, bus_arg="buses"):
+    def simple(single, batch, table, kws, nbus=2, bus_arg="buses", pre=False):
         def f(net, is_batch):
+            if pre:
+                # the table already has a row (and a table of another element type has rows with other labels)
+                getattr(pp, single)(net, 4, **{a: (v[0] if isinstance(v, list) else v) for a, v in kws.items()})
+                for other, args in (("storage", dict(p_mw=1., max_e_mwh=1.)), ("load", dict(p_mw=1.))):
+                    if other != table:
+                        getattr(pp, "create_" + other)(net, 5, index=1, **args)
             if is_batch:
                 getattr(pp, batch)(net, [2, 3], **{k: v for k, v in kws.items()})
             else:
@@ -171,6 +177,9 @@ def pairs():
     yield "create_shunt(s)", "shunt", simple("create_shunt", "create_shunts", "shunt", dict(q_mvar=[1., -2.], p_mw=[0., .1], vn_kv=[np.nan, 21.], step=[1, 2],
                                                                                            max_step=[1, 3]))
     yield "create_ward(s)", "ward", simple("create_ward", "create_wards", "ward", dict(ps_mw=[1., 2.], qs_mvar=[.1, .2], pz_mw=[.3, .4], qz_mvar=[.5, .6]))
+
+    for sgl, bat, tab, kws in SIMPLE_MIN:
+        yield f"{sgl}(s) into a table that already has a row", tab, simple(sgl, bat, tab, kws, pre=True)
 
     def buses(net, batch):
         if batch:
@@ -213,7 +222,30 @@ def pairs():
     yield "create_pwl_cost(s)", "pwl_cost", pwl
 
 
+SIMPLE_MIN = [("create_load", "create_loads", "load", dict(p_mw=[1., 2.])), ("create_sgen", "create_sgens", "sgen", dict(p_mw=[1., 2.])),
+              ("create_gen", "create_gens", "gen", dict(p_mw=[1., 2.], vm_pu=[1.01, 1.02])),
+              ("create_storage", "create_storages", "storage", dict(p_mw=[1., -2.], max_e_mwh=[4., 5.])),
+              ("create_shunt", "create_shunts", "shunt", dict(q_mvar=[1., -2.])),
+              ("create_ward", "create_wards", "ward", dict(ps_mw=[1., 2.], qs_mvar=[.1, .2], pz_mw=[.3, .4], qz_mvar=[.5, .6]))]
+
+
 def rejections():
+    def existing_index(sgl, bat, kws, idx, other):
+        def f(net, batch):
+            first = {a: v[0] for a, v in kws.items()}
+            getattr(pp, sgl)(net, 4, index=0, **first)              # element 0 exists
+            for o, args in (("storage", dict(p_mw=1., max_e_mwh=1.)), ("load", dict(p_mw=1.))):
+                if not sgl.endswith(o):
+                    getattr(pp, "create_" + o)(net, 5, index=7, **args)     # label 7 is taken in tables of other element types only
+            if batch:
+                getattr(pp, bat)(net, [2], index=[idx], **{a: v[:1] for a, v in kws.items()})
+            else:
+                getattr(pp, sgl)(net, 2, index=idx, **first)
+        return f
+    for sgl, bat, tab, kws in SIMPLE_MIN:
+        yield f"{sgl}(s): index of an existing {tab}", existing_index(sgl, bat, kws, 0, False)
+        yield f"{sgl}(s): index that is free in {tab} and taken in another element table", existing_index(sgl, bat, kws, 7, True)
+
     """(tag, single call, batch call): both must reject (raise) or both accept"""
     def dup_poly(net, batch):
         pp.create_gen(net, 2, 1.); pp.create_gen(net, 3, 1.)
